@@ -503,6 +503,17 @@ func (en *Engine) runUntilBranch(st *State) ([]*State, *Terminal, error) {
 			if x.Max != nil {
 				mx = en.eval(st, fr, x.Max)
 			}
+			// dst[:n] after n, err := enc.Decode(dst, []byte(s)) into a buffer of exactly DecodedLen(len(s)) is the
+			// result of enc.DecodeString(s); n <= len(dst) by the library's contract
+			if a, ok := xv.(*AllocV); ok && a.Comment == "makeslice" && lo == nil && hi != nil && mx == nil {
+				if c, has := st.heap["b64d:"+a.Key()]; has {
+					tv := c.val.(*TupleV)
+					if tv.Vals[1].Key() == hi.Key() {
+						fr.env[x] = tv.Vals[0]
+						continue
+					}
+				}
+			}
 			if _, isPtr := x.X.Type().Underlying().(*types.Pointer); isPtr {
 				st.addEvent(&Event{Kind: EvDeref, Instr: x, X: xv})
 			}
@@ -581,7 +592,15 @@ func (en *Engine) runUntilBranch(st *State) ([]*State, *Terminal, error) {
 		case *ssa.ChangeInterface:
 			fr.env[x] = en.eval(st, fr, x.X)
 		case *ssa.Convert:
-			fr.env[x] = mkConv(en.eval(st, fr, x.X), x.Type())
+			xv := en.eval(st, fr, x.X)
+			// string(dst) after enc.Encode(dst, b) into a buffer of exactly EncodedLen(len(b)) is enc.EncodeToString(b)
+			if a, ok := xv.(*AllocV); ok && a.Comment == "makeslice" && isStringType(x.Type()) {
+				if c, has := st.heap["b64e:"+a.Key()]; has {
+					fr.env[x] = c.val
+					continue
+				}
+			}
+			fr.env[x] = mkConv(xv, x.Type())
 		case *ssa.MultiConvert:
 			fr.env[x] = mkConv(en.eval(st, fr, x.X), x.Type())
 		case *ssa.SliceToArrayPointer:
